@@ -230,6 +230,12 @@ class OwnAnalyzer:
             self.find('OWN4', node, 'block from %s released twice' % self.site_desc(t), 'already released on this path',
                       'double:%s' % self.site_key(t), st)
             return
+        if st.tok.get(t) == 'escaped' and ('esc', t) in st.vals:
+            _k, where, line = st.vals[('esc', t)]
+            self.find('OWN4', node, 'block from %s is released while %s still points at it' % (self.site_desc(t), where),
+                      'it was stored there at line %d and that place has not been stored to since: its owner will release or '
+                      'use the block again' % line, 'handed-then-released:%s' % self.site_key(t), st)
+            del st.vals[('esc', t)]
         st.tok[t] = 'released'
         if deep:
             for c, p in list(st.par.items()):
@@ -456,8 +462,14 @@ class OwnAnalyzer:
                         if s2.tok.get(v[1]) == 'live' and v[1] not in s2.par and not self.under(s2, bv[1], v[1]):
                             s2.par[v[1]] = bv[1]
                 else:
-                    # stored into memory we do not own: the value escapes
+                    # stored into memory we do not own: the value escapes; where it went is remembered until that place is
+                    # stored to again (a block released while an object of the caller still points at it is released twice)
+                    where = expr_str(l)
+                    for k_ in [k_ for k_ in s2.vals if k_[0] == 'esc' and s2.vals[k_][1] == where]:
+                        del s2.vals[k_]
                     if v[0] == 'tok':
+                        if s2.tok.get(v[1]) == 'live':
+                            s2.vals[('esc', v[1])] = ('into', where, node.line)
                         self.escape(s2, self.root_of(s2, v[1]) if False else v[1])
                 outs.append((s2, v))
             return outs
